@@ -7,10 +7,24 @@ Open Scope list_scope.
 (* ------------------------------------------------------------------------------------------------ *)
 (* boolean equality / membership / dedup reflect the Prop-level notions                             *)
 (* ------------------------------------------------------------------------------------------------ *)
+Lemma str_eqb_eq a : forall b, str_eqb a b = true <-> a = b.
+Proof.
+  induction a as [|c a IH]; intros [|d b]; simpl.
+  - split; reflexivity.
+  - split; discriminate.
+  - split; discriminate.
+  - destruct (Ascii.eqb c d) eqn:E.
+    + apply Ascii.eqb_eq in E. subst. rewrite IH. split; intro H; [subst; reflexivity | injection H; auto].
+    + split; [discriminate|]. intro H. injection H as H1 H2. subst. rewrite Ascii.eqb_refl in E. discriminate.
+Qed.
+
+Lemma str_eqb_refl a : str_eqb a a = true.
+Proof. apply str_eqb_eq. reflexivity. Qed.
+
 Lemma opt_eqb_eq a b : opt_eqb a b = true <-> a = b.
 Proof.
   destruct a as [x|], b as [y|]; simpl.
-  - rewrite String.eqb_eq. split; intro; congruence.
+  - rewrite str_eqb_eq. split; intro; congruence.
   - split; discriminate.
   - split; discriminate.
   - split; reflexivity.
@@ -18,18 +32,24 @@ Qed.
 
 Lemma row_eqb_eq a b : row_eqb a b = true <-> a = b.
 Proof.
-  destruct a, b; unfold row_eqb; simpl.
-  rewrite !andb_true_iff, !String.eqb_eq, !opt_eqb_eq.
-  split.
-  - intros [[[[-> ->] ->] ->] ->]. reflexivity.
-  - intros H; injection H; intros; subst; repeat split; reflexivity.
+  destruct a as [m q a r y], b as [m' q' a' r' y']; unfold row_eqb; simpl. split.
+  - destruct (str_eqb m m') eqn:E1; [|discriminate].
+    destruct (str_eqb q q') eqn:E2; [|discriminate].
+    destruct (str_eqb a a') eqn:E3; [|discriminate].
+    destruct (opt_eqb r r') eqn:E4; [|discriminate].
+    intro E5. apply str_eqb_eq in E1, E2, E3. apply opt_eqb_eq in E4, E5. subst. reflexivity.
+  - intro H. injection H; intros; subst.
+    rewrite !str_eqb_refl. rewrite (proj2 (opt_eqb_eq r' r') eq_refl). apply opt_eqb_eq. reflexivity.
 Qed.
 
 Lemma memb_In x l : memb x l = true <-> In x l.
 Proof.
-  unfold memb. rewrite existsb_exists. split.
-  - intros [y [Hy He]]. apply row_eqb_eq in He. subst. exact Hy.
-  - intro H. exists x. split; [exact H | apply row_eqb_eq; reflexivity].
+  induction l as [|a l IH]; simpl.
+  - split; [discriminate | tauto].
+  - destruct (row_eqb x a) eqn:E.
+    + apply row_eqb_eq in E. subst. split; auto.
+    + rewrite IH. split; [auto|]. intros [H|H]; [|exact H].
+      subst. rewrite (proj2 (row_eqb_eq x x) eq_refl) in E. discriminate.
 Qed.
 
 Lemma dedup_rows_In x l : In x (dedup_rows l) <-> In x l.
@@ -59,9 +79,12 @@ Qed.
 
 Lemma mem_str_In x l : mem_str x l = true <-> In x l.
 Proof.
-  unfold mem_str. rewrite existsb_exists. split.
-  - intros [y [Hy He]]. apply String.eqb_eq in He. subst. exact Hy.
-  - intro H. exists x. split; [exact H | apply String.eqb_refl].
+  induction l as [|a l IH]; simpl.
+  - split; [discriminate | tauto].
+  - destruct (str_eqb x a) eqn:E.
+    + apply str_eqb_eq in E. subst. split; auto.
+    + rewrite IH. split; [auto|]. intros [H|H]; [|exact H].
+      subst. rewrite str_eqb_refl in E. discriminate.
 Qed.
 
 Lemma dedup_str_In x l : In x (dedup_str l) <-> In x l.
@@ -369,7 +392,7 @@ Proof. rewrite list_modules_eq. apply NoDup_filter. apply dedup_str_NoDup. Qed.
 Lemma modules_spec_l ops ms :
   modules_answerb (run ops) ms = true -> modules_answer_spec ops ms.
 Proof.
-  unfold modules_answerb, modules_answer_spec.
+  unfold modules_answerb, modules_answer_spec. cbv zeta.
   rewrite !andb_true_iff, !forallb_forall. intros [[[_ Hnd] H1] H2].
   split; [apply nodup_strb_NoDup; exact Hnd|].
   intro m. rewrite <- list_modules_In. split.
@@ -379,7 +402,7 @@ Qed.
 
 Lemma list_modules_accepted ops : modules_answerb (run ops) (list_modules (run ops)) = true.
 Proof.
-  unfold modules_answerb. rewrite !andb_true_iff. split; [split; [split|]|].
+  unfold modules_answerb. cbv zeta. rewrite !andb_true_iff. split; [split; [split|]|].
   - reflexivity.
   - generalize (list_modules_NoDup (run ops)). generalize (list_modules (run ops)).
     induction l as [|a l IH]; intro H; simpl; [reflexivity|].
